@@ -410,6 +410,21 @@ func c01FillPeriodic(p, base []byte, phase int) {
 func c01Payload(m c01Msg, idx, globalOff int, seed int64) []byte {
 	p := make([]byte, m.Len)
 	pool := c01Pool(seed)
+	if strings.HasPrefix(m.Content, "dhist:") {
+		// slice [globalOff, globalOff+Len) of the history stream
+		// 'x'*(total-d) + R(1024) + 'x'*(d-1024): R ends up exactly d bytes before the end
+		var d, total int
+		fmt.Sscanf(m.Content, "dhist:%d:%d", &d, &total)
+		for i := range p {
+			pos := globalOff + i
+			if r := pos - (total - d); r >= 0 && r < 1024 {
+				p[i] = pool[50000+r]
+			} else {
+				p[i] = 'x'
+			}
+		}
+		return p
+	}
 	switch m.Content {
 	case "zeros":
 	case "text37":
@@ -423,6 +438,12 @@ func c01Payload(m c01Msg, idx, globalOff int, seed int64) []byte {
 	case "longrange":
 		// every byte repeats the byte written 32771 bytes earlier: just outside the 32 KiB window
 		c01FillPeriodic(p, pool[:32771], globalOff)
+	case "dprobe":
+		// the 1024 pseudo-random bytes that the history holds at a chosen distance, then a tail
+		copy(p, pool[50000:51024])
+		for i := 1024; i < len(p); i++ {
+			p[i] = 'y'
+		}
 	case "window-edge":
 		// every byte repeats the byte written exactly 32768 bytes earlier: the largest legal distance
 		c01FillPeriodic(p, pool[40000:40000+32768], globalOff)
@@ -991,6 +1012,56 @@ func c01WindowRun(c *fw.Ctx, shard, nshards int) {
 	c01SeqRunWith(c, shard, nshards, "window", c01WindowAlphabet, 3, readers, scheds)
 }
 
+// c01DistanceRun: back-references at chosen distances across the message
+// boundary. The history carries 1024 pseudo-random bytes exactly d bytes before
+// its end (everything else is a run of 'x', which keeps the sender's match table
+// intact); the next message starts with those bytes, so a context-takeover
+// sender refers d bytes back from the first byte of the message.
+func c01DistanceRun(c *fw.Ctx, shard, nshards int) {
+	dists := []int{1024, 20000, 32766, 32767, 32768}
+	type shape struct {
+		name  string
+		total int
+		piece int
+	}
+	shapes := []shape{{"one-message", 32768, 32768}, {"three-messages", 99000, 33000}, {"many-1k-messages", 65536, 1024}, {"two-uneven", 40000, 39999}}
+	idx := 0
+	for _, cf := range c01Configs() {
+		for _, dir := range c01Dirs {
+			for _, d := range dists {
+				for _, sh := range shapes {
+					for _, api := range []string{"write", "writer"} {
+						mine := idx%nshards == shard
+						idx++
+						if !mine {
+							continue
+						}
+						if c01Poisoned {
+							c.NotExhaustive(c01PoisonNote)
+							return
+						}
+						var msgs []c01Msg
+						for off := 0; off < sh.total; off += sh.piece {
+							n := sh.piece
+							if off+n > sh.total {
+								n = sh.total - off
+							}
+							msgs = append(msgs, c01Msg{Type: "binary", Len: n, Content: fmt.Sprintf("dhist:%d:%d", d, sh.total), API: "write"})
+						}
+						probe := c01Msg{Type: "binary", Len: 1100, Content: "dprobe", API: api}
+						if api == "writer" {
+							probe.Chunking = "one"
+						}
+						msgs = append(msgs, probe)
+						c01One(c, c01Case{Cfg: cf, Dir: dir, Msgs: msgs, Reader: "read", Sched: "batch", Seed: c.Seed})
+					}
+				}
+			}
+		}
+	}
+	c.Bound("distance_probes", map[string]interface{}{"distances": dists, "history_shapes": len(shapes)})
+}
+
 func c01Replay(c *fw.Ctx, data json.RawMessage) {
 	var cs c01Case
 	if json.Unmarshal(data, &cs) != nil || len(cs.Msgs) == 0 {
@@ -1009,6 +1080,9 @@ func init() {
 		Replay: c01Replay})
 	fw.Register(fw.Part{Prop: "C01", Name: "seq",
 		Units:  func(tier string) []fw.Unit { return fw.Shards("sequences", 16, c01SeqRun) },
+		Replay: c01Replay})
+	fw.Register(fw.Part{Prop: "C01", Name: "distance",
+		Units:  func(tier string) []fw.Unit { return fw.Shards("probes", 16, c01DistanceRun) },
 		Replay: c01Replay})
 	fw.Register(fw.Part{Prop: "C01", Name: "window",
 		Units:  func(tier string) []fw.Unit { return fw.Shards("sequences", 16, c01WindowRun) },
